@@ -5,6 +5,7 @@ use crate::runner::{Meta, Session};
 
 pub mod builder;
 pub mod chainmisc;
+pub mod content;
 pub mod crash;
 pub mod envelope;
 pub mod inscriptions;
@@ -36,6 +37,7 @@ pub fn dispatch(id: &str) -> Option<fn(&mut Session) -> Meta> {
     "C15" => chainmisc::c15,
     "C16" => chainmisc::c16,
     "C17" => sats::c17,
+    "C19" => content::c19,
     "C20" => builder::c20,
     "C25" => runestone::c25,
     "C26" => pure_ordinals::c26,
